@@ -1,4 +1,154 @@
-(* placeholder until the proofs land *)
+(* Props/C03.v — property C03, accounting half: "Syntax errors are contained: Junk accounting and
+   per-entry recovery".  Model: Syntax/ParserModel.v (parse / parse_runtime); proofs:
+   Syntax/ParserAccounting.v.
+
+   Everything is stated for EVERY byte string `bs` on which the model returns (`= Done`): no UTF-8
+   validity hypothesis and no fuel hypothesis is used (that the model always returns on valid UTF-8
+   is C01 / ParserTotal.v, not needed here).  The definitions below are restated in full so that the
+   statements can be read here; they are convertible with the ones used in ParserAccounting.v.
+
+   The containment half of C03 (damaging one entry leaves the others as before) is checked on the
+   implementation by props/C03.py; it is not claimed here.                                        *)
 From FluentV Require Import Syntax.ParserModel.
-Theorem C03_placeholder : True.
-Proof. exact Logic.I. Qed.
+From FluentV Require Syntax.ParserAccounting.
+
+(* the contents of the Junk entries of a resource body, in order *)
+Fixpoint junks (body : list entry) : list bytes :=
+  match body with
+  | [] => []
+  | Junk c :: r => c :: junks r
+  | _ :: r => junks r
+  end.
+
+Definition is_junk (e : entry) : bool := match e with Junk _ => true | _ => false end.
+
+(* offset a is at the start of a line *)
+Definition line_start (bs : bytes) (a : nat) : Prop := a = 0 \/ nth_error bs (a - 1) = Some 10%N.
+
+(* a byte that can begin an entry: ASCII letter, '-' or '#' (helper.rs scan_to_next_entry_start) *)
+Definition entry_char (b : N) : bool := is_ascii_alphabetic b || N.eqb b 45 || N.eqb b 35.
+
+(* offset b is where a following entry begins: just after a '\n', on an entry_char byte *)
+Definition entry_line_start (bs : bytes) (b : nat) : Prop :=
+  0 < b /\ nth_error bs (b - 1) = Some 10%N /\
+  exists c, nth_error bs b = Some c /\ entry_char c = true.
+
+(* Junk `content` is accounted for by error `e` *)
+Definition junk_matches (bs : bytes) (content : bytes) (e : perror) : Prop :=
+  exists a b,
+    eslice e = Some (a, b) /\                        (* the error carries a slice range a..b            *)
+    slice bs a b = Done content /\                   (* the Junk is exactly &source[a..b] (char bounds) *)
+    a < b <= length bs /\                            (* non-empty, in range                             *)
+    line_start bs a /\                               (* starts at a line start                          *)
+    (b = length bs \/ entry_line_start bs b) /\      (* ends where the next entry begins, or at the end *)
+    a <= pos_start e <= b.                           (* and contains the error position                 *)
+
+(* slice ranges of the errors are pairwise disjoint and in source order *)
+Definition ranges_ordered (errs : list perror) : Prop :=
+  forall i j ei ej ai bi aj bj,
+    i < j -> nth_error errs i = Some ei -> nth_error errs j = Some ej ->
+    eslice ei = Some (ai, bi) -> eslice ej = Some (aj, bj) -> bi <= aj.
+
+(* entry x was produced by an Ok result of get_entry started at an entry start p (with entry_start = p),
+   possibly with the preceding comment attached (core.rs:44-58) *)
+Definition admitted (bs : bytes) (x : entry) : Prop :=
+  exists n p q e, get_entry bs n p p = Ok e q /\ (x = e \/ exists c, x = attach e c).
+Definition admitted_rt (bs : bytes) (x : entry) : Prop :=
+  exists n p q, get_entry_runtime bs n p p = Ok (Some x) q.
+
+(* ---- parser::parse -------------------------------------------------------------------------- *)
+
+(* "the parser reports success exactly when the tree has no Junk" (Ok(resource) iff errs = []) *)
+Theorem C03_ok_iff_no_junk : forall bs body errs,
+  parse bs = Done (body, errs) -> (errs = [] <-> junks body = []).
+Proof. exact ParserAccounting.parse_ok_iff_no_junk. Qed.
+
+(* "errors and Junk entries correspond one-to-one in source order, each Junk holds exactly the source
+   text of its error's slice range (a range on character boundaries that starts at a line start, ends
+   where the next entry begins and contains the error position)" *)
+Theorem C03_accounting : forall bs body errs,
+  parse bs = Done (body, errs) -> Forall2 (junk_matches bs) (junks body) errs.
+Proof. exact ParserAccounting.parse_accounting. Qed.
+
+(* "in source order": the ranges are disjoint and increasing *)
+Theorem C03_order : forall bs body errs,
+  parse bs = Done (body, errs) -> ranges_ordered errs.
+Proof. exact ParserAccounting.parse_order. Qed.
+
+(* "an entry that breaks a syntax rule is never admitted as a message or term", at the level of the
+   entry loop: whatever is in the body and is not Junk came out of get_entry with Ok; when get_entry
+   returns Err the loop pushes a Junk (and one error) instead.  Which inputs make get_entry return Err
+   (the list of documented violations) is the containment half, exercised by props/C03.py. *)
+Theorem C03_admitted_not_junk : forall bs body errs,
+  parse bs = Done (body, errs) -> Forall (fun x => is_junk x = true \/ admitted bs x) body.
+Proof. exact ParserAccounting.parse_admitted. Qed.
+
+(* ---- parser::parse_runtime ------------------------------------------------------------------ *)
+
+Theorem C03_runtime_ok_iff_no_junk : forall bs body errs,
+  parse_runtime bs = Done (body, errs) -> (errs = [] <-> junks body = []).
+Proof. exact ParserAccounting.parse_runtime_ok_iff_no_junk. Qed.
+
+Theorem C03_runtime_accounting : forall bs body errs,
+  parse_runtime bs = Done (body, errs) -> Forall2 (junk_matches bs) (junks body) errs.
+Proof. exact ParserAccounting.parse_runtime_accounting. Qed.
+
+Theorem C03_runtime_order : forall bs body errs,
+  parse_runtime bs = Done (body, errs) -> ranges_ordered errs.
+Proof. exact ParserAccounting.parse_runtime_order. Qed.
+
+Theorem C03_runtime_admitted_not_junk : forall bs body errs,
+  parse_runtime bs = Done (body, errs) -> Forall (fun x => is_junk x = true \/ admitted_rt bs x) body.
+Proof. exact ParserAccounting.parse_runtime_admitted. Qed.
+
+(* ---- non-vacuity witnesses ------------------------------------------------------------------ *)
+Definition nl : bytes := [10%N].
+
+(* "a = { FUN(\nb = x\nc = y\n": one Junk "a = { FUN(\n" (range 0..11, error at 10), b and c survive *)
+Definition ex_junk_first : bytes :=
+  bytes_of_string "a = { FUN(" ++ nl ++ bytes_of_string "b = x" ++ nl ++ bytes_of_string "c = y" ++ nl.
+
+Example C03_example_junk_then_messages :
+  parse ex_junk_first =
+  Done ([Junk (bytes_of_string "a = { FUN(" ++ nl);
+         Message (bytes_of_string "b") (Some (Pattern [TextElement (bytes_of_string "x")])) [] None;
+         Message (bytes_of_string "c") (Some (Pattern [TextElement (bytes_of_string "y")])) [] None],
+        [PError ExpectedInlineExpression 10 11 (Some (0, 11))]).
+Proof. vm_compute. reflexivity. Qed.
+
+Example C03_example_junk_then_messages_runtime :
+  parse_runtime ex_junk_first = parse ex_junk_first.
+Proof. vm_compute. reflexivity. Qed.
+
+(* Junk between entries; the first error position (detected at 28, inside the attribute line) is
+   clamped to the rewound '\n' at 20; the second Junk ends with CR LF; a comment in between. *)
+Definition ex_junk_between : bytes :=
+  bytes_of_string "ok = fine" ++ nl ++
+  bytes_of_string "bad = { $x" ++ nl ++ bytes_of_string "  .attr = still bad" ++ nl ++ nl ++
+  bytes_of_string "# note" ++ nl ++
+  bytes_of_string "-t = { 1 2 }" ++ [13; 10]%N ++
+  bytes_of_string "z = last".
+
+Example C03_example_junk_between :
+  omap (fun r => (junks (fst r), map (fun e => (pos_start e, eslice e)) (snd r), length (fst r)))
+       (parse ex_junk_between) =
+  Done ([bytes_of_string "bad = { $x" ++ nl ++ bytes_of_string "  .attr = still bad" ++ nl ++ nl;
+         bytes_of_string "-t = { 1 2 }" ++ [13; 10]%N],
+        [(20, Some (10, 42)); (58, Some (49, 63))],
+        5).
+Proof. vm_compute. reflexivity. Qed.
+
+Example C03_example_junk_between_runtime :
+  omap (fun r => (junks (fst r), map (fun e => (pos_start e, eslice e)) (snd r), map is_junk (fst r)))
+       (parse_runtime ex_junk_between) =
+  Done ([bytes_of_string "bad = { $x" ++ nl ++ bytes_of_string "  .attr = still bad" ++ nl ++ nl;
+         bytes_of_string "-t = { 1 2 }" ++ [13; 10]%N],
+        [(20, Some (10, 42)); (58, Some (49, 63))],
+        [false; true; true; false]).
+Proof. vm_compute. reflexivity. Qed.
+
+(* no errors, no Junk *)
+Example C03_example_clean :
+  omap (fun r => (junks (fst r), snd r)) (parse (bytes_of_string "a = b" ++ nl ++ bytes_of_string "-t = u")) =
+  Done ([], []).
+Proof. vm_compute. reflexivity. Qed.
